@@ -856,6 +856,80 @@ pub fn check_main(tier: &str) -> i32 {
         }
         lines.push(format!("VIOLATION property=C19 replay={} class={class} occurrences={cnt} :: {d}", path.display()));
     }
+    // ---- the nimbleparse binary on generated lexer / grammar pairs with differing token sets ----
+    let np_cases: u64 = std::env::var("VERIF_NP_COUNT").ok().and_then(|s| s.parse().ok()).unwrap_or(if tier == "thorough" { 4000 } else { 240 });
+    let mut np_stats: BTreeMap<&'static str, u64> = BTreeMap::new();
+    match crate::np_n::binary() {
+        None => {
+            np_stats.insert("skipped_binary_not_built", 1);
+            println!("engine N: nimbleparse binary not found (built by ./check C19): the whole-program part is skipped");
+        }
+        Some(bin) => {
+            let scratch = scratch_base();
+            let results: Mutex<Vec<(u64, String, String)>> = Mutex::new(vec![]);
+            let stats: Mutex<BTreeMap<&'static str, u64>> = Mutex::new(BTreeMap::new());
+            let failed: Mutex<Option<String>> = Mutex::new(None);
+            std::thread::scope(|s| {
+                for o in 0..w {
+                    let (results, stats, failed, bin, scratch) = (&results, &stats, &failed, &bin, &scratch);
+                    s.spawn(move || {
+                        let mut k = o;
+                        while k < np_cases {
+                            let cs = mix(seed, 0x6e70, k);
+                            let case = crate::np_n::generate(cs);
+                            match crate::np_n::run_case(bin, &case, &scratch.join(format!("np{k}"))) {
+                                Ok(fs) => {
+                                    let mut st = stats.lock().unwrap();
+                                    *st.entry("nimbleparse_runs").or_insert(0) += 1;
+                                    if !case.missing_from_lexer.is_empty() {
+                                        *st.entry("nimbleparse_runs_with_tokens_missing_from_the_lexer").or_insert(0) += 1;
+                                    }
+                                    if !case.missing_from_parser.is_empty() {
+                                        *st.entry("nimbleparse_runs_with_tokens_missing_from_the_parser").or_insert(0) += 1;
+                                    }
+                                    drop(st);
+                                    let mut r = results.lock().unwrap();
+                                    for (c, d) in fs {
+                                        r.push((cs, c, d));
+                                    }
+                                }
+                                Err(e) => *failed.lock().unwrap() = Some(e),
+                            }
+                            let _ = std::fs::remove_dir_all(scratch.join(format!("np{k}")));
+                            k += w;
+                        }
+                    });
+                }
+            });
+            if let Some(e) = failed.into_inner().unwrap() {
+                eprintln!("harness error: nimbleparse could not be run: {e}");
+                return EXIT_HARNESS;
+            }
+            np_stats = stats.into_inner().unwrap();
+            let mut by_class: BTreeMap<String, (u64, u64, String)> = BTreeMap::new();
+            for (cs, c, d) in results.into_inner().unwrap() {
+                let e = by_class.entry(c).or_insert((0, cs, d.clone()));
+                e.0 += 1;
+                if cs < e.1 {
+                    *e = (e.0, cs, d);
+                }
+            }
+            for (class, (cnt, cs, d)) in by_class {
+                nviol += cnt;
+                exit = EXIT_VIOLATION;
+                let case = crate::np_n::generate(cs);
+                let replay = crate::np_n::replay_json(&class, seed, cs, cnt, &d, &case);
+                let path = write_replay(&vdir, &format!("C19-{}-{}.json", sanitize(&class), seed), &replay).unwrap();
+                let exe = std::env::current_exe().unwrap();
+                let st = crate::driver_r::run_guarded(&exe, &["replay", path.to_str().unwrap(), "--quiet"], 60.0);
+                if st != Some(1) {
+                    eprintln!("harness error: replay of {} did not reproduce (status {:?})", path.display(), st);
+                    return EXIT_HARNESS;
+                }
+                lines.push(format!("VIOLATION property=C19 replay={} class={class} occurrences={cnt} :: {}", path.display(), d.chars().take(400).collect::<String>()));
+            }
+        }
+    }
     t.digests.sort_unstable();
     t.digests.dedup();
     let wall = real_now_s() - t0;
@@ -864,7 +938,8 @@ pub fn check_main(tier: &str) -> i32 {
     extra.insert("runs_per_hour".into(), json!((count as f64 / wall * 3600.0) as u64));
     extra.insert("fragmentation_faults_fired".into(), json!(t.probes));
     extra.insert("event_log_hash".into(), json!(format!("{:016x}", t.loghash)));
-    extra.insert("real_components".into(), json!(["cfgrammar::newlinecache::NewlineCache (feed, byte_to_line_num, byte_to_line_byte, byte_to_line_num_and_col_num, span_line_bytes)", "lrlex::LRNonStreamingLexer::{line_col, span_lines_str}", "lrpar::LexParseError::pp (lexing errors with empty and non-empty spans, parse errors with repair lists)", "lrlex::LRNonStreamingLexerDef::lexer (its own cache feeding)", "lrpar::diagnostics::SpannedDiagnosticFormatter::{file_location_msg, underline_span_with_text, format_warning (multi-span), format_conflicts}"]));
+    extra.insert("nimbleparse_binary".into(), json!(np_stats));
+    extra.insert("real_components".into(), json!(["cfgrammar::newlinecache::NewlineCache (feed, byte_to_line_num, byte_to_line_byte, byte_to_line_num_and_col_num, span_line_bytes)", "lrlex::LRNonStreamingLexer::{line_col, span_lines_str}", "lrpar::LexParseError::pp (lexing errors with empty and non-empty spans, parse errors with repair lists)", "lrlex::LRNonStreamingLexerDef::lexer (its own cache feeding)", "lrpar::diagnostics::SpannedDiagnosticFormatter::{file_location_msg, underline_span_with_text, format_warning (multi-span), format_conflicts}", "the nimbleparse binary (child process per case; its stderr is read back)"]));
     extra.insert("stub_components".into(), json!(["none; there is no clock, thread or I/O in this path -- the simulated dimension is the fragmentation schedule and queries issued before end of stream"]));
     extra.insert("distinct_states".into(), json!({"count": t.digests.len(), "measure": "distinct chunk sequences with >= 2 chunks"}));
     let ev = Evidence {
@@ -873,7 +948,7 @@ pub fn check_main(tier: &str) -> i32 {
         seed,
         evaluations: count,
         distinct_nontrivial: t.digests.len() as u64,
-        rule: format!("history i of stream VERIF_SEED: text of <= {max_bytes} bytes over {{a b space LF CR CRLF 2/3/4-byte chars}} cut at PRNG-chosen character boundaries (empty chunks, CR|LF cuts, cut after newline); after every feed all character-boundary offsets are queried, all spans after the last feed (and after every feed for one history in four); on the final text: the real lexer's own cache, pretty-printed lexing and parse errors, single-span underlines, six multi-span (2-4 spans) warnings, and for one text in eight the conflict report of one of six ambiguous grammars laid out over several lines from the text's hash, and for another eighth the error for an array-valued `recoverer` entry of a %grmtools section laid out over several lines (parse, merge, RecoveryKind::try_from, format_error: reported at the opening bracket). Non-trivial = at least two chunks; distinct = distinct chunk sequence."),
+        rule: format!("history i of stream VERIF_SEED: text of <= {max_bytes} bytes over {{a b space LF CR CRLF 2/3/4-byte chars}} cut at PRNG-chosen character boundaries (empty chunks, CR|LF cuts, cut after newline); after every feed all character-boundary offsets are queried, all spans after the last feed (and after every feed for one history in four); on the final text: the real lexer's own cache, pretty-printed lexing and parse errors, single-span underlines, six multi-span (2-4 spans) warnings, and for one text in eight the conflict report of one of six ambiguous grammars laid out over several lines from the text's hash, and for another eighth the error for an array-valued `recoverer` entry of a %grmtools section laid out over several lines (parse, merge, RecoveryKind::try_from, format_error: reported at the opening bracket). Then {np_cases} generated lexer / grammar pairs with differing token sets go through the nimbleparse binary: every echoed `N| text` line of its report must be line N of the file the block names and every underline must sit under a token the block is about. Non-trivial = at least two chunks; distinct = distinct chunk sequence."),
         samples: t.samples.clone(),
         extra,
         assumptions: vec!["offsets and spans on character boundaries only (as the property states)".into(), "newline = LF; a lone CR is an ordinary character".into()],
